@@ -98,6 +98,10 @@ func newC11Engine(linear, check bool, ttl int) (*c11Engine, error) {
 		cont.LocationTTL = time.Millisecond
 	}
 	cont.DefaultLocControl = quietControl()
+	cont.DefaultLocControl.Libraries = map[string]string{}
+	for i := 0; i < 16; i++ {
+		cont.DefaultLocControl.Libraries[fmt.Sprintf("lib%d", i)] = fmt.Sprintf("function libtag() { return 'c%d.lib'; }", i)
+	}
 	s, err := sys.NewSystem(newCtx(), *conf, *cont, nullCron{})
 	if err != nil {
 		return nil, err
@@ -108,11 +112,13 @@ func newC11Engine(linear, check bool, ttl int) (*c11Engine, error) {
 
 // c11Rule is the rule an addRule / addLibRule request writes.  The library
 // variant has the same action text in every location ("libtag()") and gets
-// the client-specific tag from a library given as explicit code.
+// a client-specific tag from the library "lib<client>" of the location
+// control (Control.Libraries maps the name to explicit code).
 func c11Rule(x c12Op, v string) M {
 	rule := mkRule(M{"go": "1"}, v)
 	if x.K == "addLibRule" {
-		rule["action"] = M{"code": "libtag()", "opts": M{"libraries": A{"function libtag() { return '" + v + "'; }"}}}
+		client := strings.SplitN(strings.TrimPrefix(v, "c"), ".", 2)[0]
+		rule["action"] = M{"code": "libtag()", "opts": M{"libraries": A{"lib" + client}}}
 	}
 	return rule
 }
@@ -302,6 +308,9 @@ func runC11(c c11Case) *vlib.Outcome {
 			// in the solo run, which shares the process - and whatever the
 			// process keeps globally - with everything that ran before.
 			if x.K == "event" || x.K == "search" {
+				if strings.Contains(want[ci][j], ".lib") {
+					o.Label("library-rule-ran")
+				}
 				if bad := c11ForeignTag(want[ci][j], ci); bad != "" {
 					o.Fail("INTERFERENCE", "client %d alone on a fresh engine (location %s, http=%v, linear=%v): request %d %+v returned %q, which carries %q - not something this client wrote",
 						ci, loc, c.HTTP, c.Linear, j, x, want[ci][j], bad)
